@@ -707,7 +707,7 @@ pub fn work(tier: &str) -> Work {
         }
         Work { corpus, system: Vec::new(), n_synth: 3_000, n_random: 60, rule_years: 6 }
     } else {
-        Work { corpus: all, system: system_files(), n_synth: 200_000, n_random: 150, rule_years: 24 }
+        Work { corpus: all, system: system_files(), n_synth: 1_000_000, n_random: 150, rule_years: 24 }
     }
 }
 
